@@ -50,11 +50,11 @@ impl<'a> WireFormat<'a> for IPSECKEY<'a> {
     where
         Self: Sized,
     {
-        let precedence = data[*position];
+        let precedence = *data.get(*position).ok_or(crate::SimpleDnsError::InsufficientData)?;
         *position += 1;
-        let gateway_type = data[*position];
+        let gateway_type = *data.get(*position).ok_or(crate::SimpleDnsError::InsufficientData)?;
         *position += 1;
-        let algorithm = data[*position];
+        let algorithm = *data.get(*position).ok_or(crate::SimpleDnsError::InsufficientData)?;
         *position += 1;
         let gateway = match gateway_type {
             0 => Gateway::None,
@@ -86,7 +86,7 @@ impl<'a> WireFormat<'a> for IPSECKEY<'a> {
             }
             _ => return Err(crate::SimpleDnsError::AttemptedInvalidOperation),
         };
-        let public_key = &data[*position..];
+        let public_key = data.get(*position..).ok_or(crate::SimpleDnsError::InsufficientData)?;
         *position += public_key.len();
         Ok(Self {
             precedence,
